@@ -45,6 +45,9 @@ type syncCase struct {
 	staleHit []bool
 	foreign  []bool // see storeCase.foreign
 	lost     []bool
+	// see storeCase.reAppended
+	discarded  []bool
+	reAppended []bool
 }
 
 func (sc *syncCase) find(text string) {
@@ -229,6 +232,9 @@ func (sc *syncCase) deliver(i int, b []byte, what string) int {
 	if cls == 0 && sc.diverged[i] {
 		sc.foreign[i] = true
 	}
+	if cls == 0 && sc.discarded[i] {
+		sc.reAppended[i] = true
+	}
 	if cls == 0 && what == "next" && !wasDiverged && sc.diverged[i] {
 		zero := make([]byte, 32)
 		if hdr.BlTxId == 0 && string(hdr.BlRoot) != string(zero) {
@@ -266,6 +272,9 @@ func (sc *syncCase) discard(i int, t uint64) {
 	if after.cid != before.cid {
 		sc.find(fmt.Sprintf("DiscardPrecommittedTxsSince(%d) changed the committed id of replica %d", t, i))
 	}
+	if cls == 0 && after.pid < before.pid {
+		sc.discarded[i] = true
+	}
 	sc.checkReplica(i)
 }
 
@@ -283,9 +292,10 @@ func (sc *syncCase) restart(i int) error {
 	sc.stats["restart"]++
 	sc.restarts[i]++
 	sc.checkReplica(i)
-	if sc.foreign[i] {
+	if sc.foreign[i] || sc.reAppended[i] {
 		sc.lost[i] = true
 	}
+	sc.discarded[i] = false
 	return nil
 }
 
@@ -347,6 +357,8 @@ func runSyncCase(r *vk.Run, idx int) error {
 	sc.restarts = make([]int, sc.nrep)
 	sc.staleHit = make([]bool, sc.nrep)
 	sc.foreign = make([]bool, sc.nrep)
+	sc.discarded = make([]bool, sc.nrep)
+	sc.reAppended = make([]bool, sc.nrep)
 	sc.lost = make([]bool, sc.nrep)
 	sc.acked = make([]uint64, sc.nrep)
 	sc.diverged = make([]bool, sc.nrep)
